@@ -215,6 +215,58 @@ def simplify(els, acc, opt, stratum):
     return Case(line, 'I', judge, stratum, 'oracle')
 
 
+def skeleton_mismatch(impl_els, model_els, ext):
+    """compare the implementation's simplified path with the model's skeleton (every fitted stretch printed as one `C a b b`): MoveTo / ClosePath /
+    single segments verbatim (bit for bit), a fitted stretch = one or more CurveTo ending at b (1e-9 extent)"""
+    i = 0
+    cur = None
+    slack = 1e-9 * ext
+    for m in model_els:
+        if i >= len(impl_els):
+            return f'the implementation stops after {i} elements, the model goes on with {m}'
+        e = impl_els[i]
+        if m[0] == 'C' and cur is not None and m[1] == cur and m[2] == m[3] and e != m:
+            # a fitted stretch from cur to m[3]
+            b = m[3]
+            j = i
+            while j < len(impl_els) and impl_els[j][0] == 'C':
+                if math.hypot(impl_els[j][3][0] - b[0], impl_els[j][3][1] - b[1]) <= slack:
+                    break
+                j += 1
+            if j >= len(impl_els) or impl_els[j][0] != 'C':
+                return f'no CurveTo of the implementation ends at the end {b} of the fitted stretch that starts at {cur} (element {i})'
+            i = j + 1
+            cur = b
+            continue
+        if e != m:
+            return f'element {i}: implementation {e}, model {m}'
+        if e[0] != 'Z':
+            cur = e[-1]
+        i += 1
+    if i != len(impl_els):
+        return f'the implementation has {len(impl_els) - i} more elements than the model: {impl_els[i:i + 3]}'
+    return None
+
+
+@maker(MAKERS)
+def simplify_skeleton(els, acc, opt, stratum):
+    """control skeleton of simplify_bezpath: implementation vs the Lean model (Kurbo/Simplify.lean; the fitter itself is abstract there)"""
+    from .shapes_common import parse_els
+    lines = [f'path.simplify {H(acc)} {opt} {els_str(els)}', f'path.simplify_skel {els_str(els)}']
+
+    def judge(o):
+        out, err = parse_out(o['I'][0])
+        if err:
+            return err
+        f = o['F'][1]
+        if engine_error(f):
+            return 'CORR engine error (model) ' + f[:80]
+        mod = parse_els(f[3:] if f.startswith('ok ') else f)
+        v = skeleton_mismatch(out, mod, ext_of(els))
+        return ('CORR skeleton: ' + v) if v else None
+    return Case(lines, 'IF', judge, stratum, 'corr-F')
+
+
 @maker(MAKERS)
 def moments(vals, stratum):
     """moment_integrals of a cubic: implementation vs exact rational model (translated kernel) and vs the exact integrals"""
@@ -294,6 +346,38 @@ def simplify_source(rng):
     return els
 
 
+def skeleton_source(rng):
+    """paths on a small grid with every structural feature: several sub-paths, repeated points, zero-length segments, drawing after ClosePath, exact
+    reversals, collinear continuations (smooth joins of lines), retracted handles"""
+    g = lambda: (float(rng.randint(-3, 3)), float(rng.randint(-3, 3)))
+    els = [('M', g())]
+    for _ in range(rng.randint(1, 9)):
+        r = rng.random()
+        last = [e for e in els if e[0] != 'Z'][-1][-1]
+        if r < 0.3:
+            els.append(('L', g() if rng.random() < 0.8 else last))
+        elif r < 0.4:      # straight continuation or exact reversal of a line
+            prev = [e for e in els if e[0] != 'Z']
+            if len(prev) >= 2:
+                a, b = prev[-2][-1], prev[-1][-1]
+                d = (b[0] - a[0], b[1] - a[1])
+                sgn = rng.choice([1.0, 1.0, -1.0])
+                els.append(('L', (b[0] + sgn * d[0], b[1] + sgn * d[1])))
+            else:
+                els.append(('L', g()))
+        elif r < 0.55:
+            els.append(('Q', g() if rng.random() < 0.8 else last, g()))
+        elif r < 0.8:
+            c1 = g() if rng.random() < 0.8 else last
+            e = g()
+            els.append(('C', c1, g() if rng.random() < 0.8 else e, e))
+        elif r < 0.9:
+            els.append(('Z',))
+        else:
+            els.append(('M', g()))
+    return els
+
+
 def generate(rng, tier):
     n = 60 if tier == 'quick' else 1500
     for k in range(n):
@@ -305,7 +389,10 @@ def generate(rng, tier):
             d = rng.choice([-1.0, 1.0]) * rng.uniform(0.05, 0.8) / kmax
             d = max(-5.0, min(5.0, d))
             yield offset(c, d, min(acc, abs(d) / 4), (k // 2) % 2, f'offset-opt{(k // 2) % 2}')
-        yield simplify(simplify_source(rng), acc, (k // 3) % 2, f'simplify-opt{(k // 3) % 2}')
+        src_s = simplify_source(rng)
+        yield simplify(src_s, acc, (k // 3) % 2, f'simplify-opt{(k // 3) % 2}')
+        yield simplify_skeleton(src_s, acc, (k // 3) % 2, 'skeleton')
+        yield simplify_skeleton(skeleton_source(rng), acc, k % 2, 'skeleton-grid')
         if k % 4 == 0:
             loop = closed_loop(rng)
             yield fit(loop, acc, (k // 4) % 2, f'fit-closed-loop-opt{(k // 4) % 2}')
